@@ -53,7 +53,7 @@ def buf(n):
 ENC_FORMS = ["secretbox_easy", "secretbox_detached", "secretbox_easy_inplace", "box_detached_afternm",
              "box_detached_afternm_inplace", "box_easy", "box_easy_inplace", "box_detached", "box_detached_inplace",
              "box_seal", "sbobj_encrypt vec", "sbobj_encrypt stack", "sbobj_into_vec x", "boxobj_encrypt vec", "boxobj_encrypt stack",
-             "boxobj_precalc_encrypt vec", "boxobj_precalc_encrypt stack"]
+             "boxobj_precalc_encrypt vec", "boxobj_precalc_encrypt stack", "boxobj_vecforms x", "sbobj_vecforms x"]
 
 
 def enc_case(form, I):
